@@ -1,6 +1,7 @@
 import Wasp.Model.Broker
 import Wasp.Model.Wire
 import Wasp.Model.BrokerOps
+import Wasp.Model.AnswerLost
 import Driver.Util
 import Driver.Dist
 import Driver.Auth
@@ -135,18 +136,14 @@ def lostOnWrite (w : World) (c : String) : World :=
   let w := applyOp w (.drop c)
   if w.out.any (fun e => e.1 == c && e.2 == .closed) then w else { w with out := w.out ++ [(c, .closed)] }
 
-/-- SUBACK, UNSUBACK, PUBREC and PINGRESP are written by Process itself, which returns the write error: the session ends.
-    (PUBACK and PUBCOMP are written from the publish workers' call-back, where the error is dropped.) -/
-def directAnswer : Pkt → Bool
-  | .suback _ _ | .unsuback _ | .pubrec _ | .pingresp => true
-  | _ => false
-
-/-- apply a packet of client `c`; on a connection whose writes fail, a direct answer ends the session -/
+/-- apply a packet of client `c`; on a connection whose writes fail this is the model's `packetOnBrokenConn`
+    (Wasp/Model/AnswerLost.lean): a direct answer that cannot be written ends the session as a lost connection; the
+    driver only adds the mark the observer sees (the harness' reader reports the close by the broker) -/
 def packetOp (st : St) (c : String) (pkt : CPkt) : World :=
-  let before := st.w.out.length
-  let w := applyOp st.w (.packet c pkt)
-  if st.muted.contains c && Wasp.Broker.writable w c && (w.out.drop before).any (fun e => e.1 == c && directAnswer e.2)
-  then lostOnWrite w c else w
+  if st.muted.contains c then
+    let w := packetOnBrokenConn st.w c pkt
+    if answerLost st.w c pkt && !(w.out.any (fun e => e.1 == c && e.2 == .closed)) then { w with out := w.out ++ [(c, .closed)] } else w
+  else applyOp st.w (.packet c pkt)
 
 def known (st : St) (c : String) : Bool := st.clients.any (fun e => e.1 == c)
 
@@ -161,6 +158,7 @@ def step (st : St) (line : String) : St × String :=
   | ["settlems", _] => (st, "ok")
   | ["reset", n, _] => ({ w := World.init n.toNat! }, "ok")
   | ["realtime", _] => (st, "ok")
+  | ["stall", c, _] => if known st c then (st, "ok") else (st, "noclient")   -- time is not part of the model: nothing changes
   | ["mute", c, v] =>
     if !known st c then (st, "noclient") else
     ({ st with muted := if v = "1" then c :: st.muted else st.muted.filter (· != c) }, "ok")
@@ -316,7 +314,8 @@ def step (st : St) (line : String) : St × String :=
   | ["setpool", n, a, b] =>
     ({ st with w := applyOp st.w (.setPool n.toNat! (a.toInt?.getD 0) (b.toInt?.getD 0)) }, "ok")
   | ["pool", n] =>
-    (st, s!"free={((st.w.node n.toNat!).pool.ivs.map (fun iv => iv.2 - iv.1)).foldl (· + ·) 0}")
+    let ivs := (st.w.node n.toNat!).pool.ivs
+    (st, s!"free={(ivs.map (fun iv => iv.2 - iv.1)).foldl (· + ·) 0} top={(ivs.map (·.2)).foldl max 0}")
   | ["log", n] => (st, "[" ++ " ".intercalate ((st.w.node n.toNat!).log.map (fun p => s!"{Driver.safe p.topic}={showPl p.payload}")) ++ "]")
   | ["bycid", n, m, c] =>
     match sessByClientID (st.w.node n.toNat!).dist m c with
